@@ -554,6 +554,33 @@ fn cmd_check(a: &Args) -> i32 {
                 .unwrap_or(None);
             st == Some(1)
         };
+        // A failure that depends on state the process had accumulated (a process-wide table in the
+        // engine) lets the shrinker remove the very steps that cause it: they had already had
+        // their effect in this process. When the minimised scenario does not reproduce alone, the
+        // scenario as generated is tried in a fresh process before giving up.
+        let (confirmed, path, vv) = if !confirmed && small.size() != sc.size() {
+            let path0 = write_replay(
+                &prop,
+                sc,
+                v,
+                serde_json::json!({"size_before": size0, "size_after": size0, "executions": spent, "observed_in_run": count,
+                    "not_minimised": "the minimised scenario did not reproduce in a fresh process (shrinking was helped by state left in the batch process); this is the scenario as generated"}),
+            );
+            let st = std::process::Command::new(std::env::current_exe().unwrap())
+                .args(["replay", path0.to_str().unwrap(), "--expect", key])
+                .stdout(std::process::Stdio::null())
+                .status()
+                .map(|s| s.code())
+                .unwrap_or(None);
+            if st == Some(1) {
+                (true, path0, v.clone())
+            } else {
+                let _ = std::fs::remove_file(&path0);
+                (false, path, vv)
+            }
+        } else {
+            (confirmed, path, vv)
+        };
         if confirmed {
             println!("VIOLATION property={} replay={}", prop, path.display());
             println!("  {} (observed {} times)\n  {}", key, count, vv.detail.replace('\n', "\n  "));
